@@ -31,7 +31,7 @@ func main() {
 	switch *prop {
 	case "C06":
 		run = ev.Begin("C06", *tier, "exploration")
-		enumx.Run(run, "C06", []string{"c06-rules", "c06-watches"}, *tier, 16, true)
+		enumx.Run(run, "C06", []string{"c06-rules", "c06-watches", "c06-names"}, *tier, 16, true)
 		run.Set("rule", "rules generated structurally (the harness knows what it asked for), rendered to an auditctl line, fed through flags.Parse + rule.Build, bytes decoded at fixed UAPI offsets: every list x action x -a/-A x 0-3 keys; every field x 8 operators x a value menu per field class x lists; all inter-field pairs; ordered pairs (triples in thorough) of a 16-filter subset; field counts 0..66; every syscall number 0..2100 + extremes x {no arch,b64,b32}; number pairs; every name of the published tables; file watches x all permission subsets x file/dir/missing x 0-2 keys. non-trivial = rule accepted by both and equal to the independent expectation in every word")
 	case "C07":
 		run = ev.Begin("C07", *tier, "exploration")
@@ -40,7 +40,7 @@ func main() {
 	case "C13":
 		run = ev.Begin("C13", *tier, "exploration")
 		par.UlimitVKB = 6 << 20 // 6 GiB of address space per worker: runaway allocation kills the worker, not the sandbox
-		enumx.Run(run, "C13", []string{"c13-structs", "c13-bytes", "c13-lines"}, *tier, 16, true)
+		enumx.Run(run, "C13", []string{"c13-structs", "c13-bytes", "c13-lines", "c13-smallvalues"}, *tier, 16, true)
 		run.Set("rule", "Rule structs (lists/actions incl. invalid x 40 filters incl. invalid x syscall strings across and beyond 0..2047 and 2^32/2^63, filter counts to 200, over-long keys/paths, all AccessType values, foreign and nil rules); byte slices (every prefix of 13 valid rules; every header word x 26 boundary values; pairs of 15 structural words x 16 values); rule lines (all token sequences <=3/4 over 43 tokens incl. unbalanced quotes, NUL, 64 KiB token). Oracle: value xor error, no panic/hang/OOM, allocation <= 1 MiB + 64 x input, ToCommandLine success => structurally valid per the independent decoder. non-trivial = case that returned normally and met every clause")
 	case "C14":
 		run = ev.Begin("C14", *tier, "exploration")
